@@ -44,17 +44,25 @@ class fixed_world:
     """patches the names the generator module resolves uuid4 / datetime / date through"""
 
     def __enter__(self):
+        import uuid as _uuid_mod
         import d42.generation  # noqa
         g = sys.modules["d42.generation._generator"]
         self.g = g
-        self.saved = (g.uuid4, g.datetime, g.date)
-        g.uuid4 = lambda: W_UUID
-        g.datetime = _DT
-        g.date = _D
+        # whichever of these names the module binds (a refactoring may import them differently); the
+        # uuid module's own uuid4 is fixed too, so `uuid.uuid4()` spelled any way reads the world
+        self.saved = {n: getattr(g, n) for n in ("uuid4", "datetime", "date") if hasattr(g, n)}
+        for n, repl in (("uuid4", lambda: W_UUID), ("datetime", _DT), ("date", _D)):
+            if n in self.saved:
+                setattr(g, n, repl)
+        self.saved_uuid4 = _uuid_mod.uuid4
+        _uuid_mod.uuid4 = lambda: W_UUID
         return self
 
     def __exit__(self, *a):
-        self.g.uuid4, self.g.datetime, self.g.date = self.saved
+        import uuid as _uuid_mod
+        for n, v in self.saved.items():
+            setattr(self.g, n, v)
+        _uuid_mod.uuid4 = self.saved_uuid4
 
 
 def run(schema, t, generator=None):
